@@ -29,6 +29,7 @@ from nemoguardrails.colang import parse_colang_file
 from nemoguardrails.colang.runtime import Runtime
 from nemoguardrails.colang.v1_0.runtime.flows import (
     FlowConfig,
+    apply_history_alterations,
     compute_context,
     compute_next_steps,
 )
@@ -391,10 +392,13 @@ class RuntimeV1_0(Runtime):
         next_steps = []
 
         if context_updates:
-            # We check if at least one key changed
+            # We check if at least one key changed. The flows do not see the context updates
+            # of the turns that were hidden ('hide_prev_turn'), so we compare with the context
+            # as the flows see it.
+            flow_context = compute_context(apply_history_alterations(events))
             changes = False
             for k, v in context_updates.items():
-                if context.get(k) != v:
+                if flow_context.get(k) != v:
                     changes = True
                     break
 
